@@ -3,6 +3,11 @@
 package types
 
 import (
+	"crypto/ecdsa"
+	"errors"
+	"math/big"
+
+	"github.com/btcsuite/btcd/btcec/v2/schnorr"
 	"github.com/dominant-strategies/go-quai/common"
 )
 
@@ -12,8 +17,8 @@ import (
 // first encoding (identical bytes follow because the wire encoding is a function of the message);
 // signing data and decoded type agree.
 //
-// verif:stub crypto.DecompressPubkey => stubDecompressPubkey
-// verif:stub crypto.FromECDSAPub => stubFromECDSAPub
+// verif:stub crypto.DecompressPubkey => stubC14DecompressPubkey
+// verif:stub crypto.FromECDSAPub => stubC14FromECDSAPub
 func VerifH_C14_x1() {
 	tx := vTxForCodec()
 	if tx.Type() == QiTxType {
@@ -88,4 +93,149 @@ func VerifH_C14_w() {
 	for i := 0; i < nOut && i < len(back.TxOut); i++ {
 		vAssert("wire/roundtrip-output", back.TxOut[i].Denomination == tx.TxOut[i].Denomination && string(back.TxOut[i].Address) == string(tx.TxOut[i].Address))
 	}
+}
+
+// secp256k1 point (de)compression is cgo: modelled as a bijection between the 33-byte and the 65-byte
+// form of a key (0x04 | x | 31 zero bytes | parity), which is all the codec relies on.
+var c14Keys map[*ecdsa.PublicKey][]byte
+
+func stubC14DecompressPubkey(pubkey []byte) (*ecdsa.PublicKey, error) {
+	if len(pubkey) != 33 || (pubkey[0] != 2 && pubkey[0] != 3) {
+		return nil, errors.New("invalid compressed public key")
+	}
+	k := new(ecdsa.PublicKey)
+	if c14Keys == nil {
+		c14Keys = map[*ecdsa.PublicKey][]byte{}
+	}
+	c14Keys[k] = append([]byte{}, pubkey...)
+	return k, nil
+}
+func stubC14FromECDSAPub(pub *ecdsa.PublicKey) []byte {
+	c := c14Keys[pub]
+	if c == nil {
+		return nil
+	}
+	out := make([]byte, 65)
+	out[0] = 4
+	copy(out[1:33], c[1:33])
+	out[64] = c[0]
+	return out
+}
+func stubC14UnmarshalPubkey(pub []byte) (*ecdsa.PublicKey, error) {
+	if len(pub) != 65 || pub[0] != 4 || (pub[64] != 2 && pub[64] != 3) {
+		return nil, errors.New("invalid public key")
+	}
+	c := make([]byte, 33)
+	c[0] = pub[64]
+	copy(c[1:], pub[1:33])
+	return stubC14DecompressPubkey(c)
+}
+func stubC14CompressPubkey(pubkey *ecdsa.PublicKey) []byte { return append([]byte{}, c14Keys[pubkey]...) }
+
+// H-C14-x3: protobuf round trip of a Qi transaction, including the optional work fields. One input
+// (compressed 33-byte key, arbitrary id byte), 0..1 outputs, arbitrary chain id and data byte, and
+// each of ParentHash / MixHash / WorkNonce independently present (arbitrary value) or absent:
+// ProtoEncode succeeds, ProtoDecode accepts the encoding, every field comes back (presence and
+// value), the re-encoding equals the encoding and the signing data is preserved.
+//
+// verif:stub crypto.DecompressPubkey => stubC14DecompressPubkey
+// verif:stub crypto.FromECDSAPub => stubC14FromECDSAPub
+// verif:stub crypto.UnmarshalPubkey => stubC14UnmarshalPubkey
+// verif:stub crypto.CompressPubkey => stubC14CompressPubkey
+func VerifH_C14_x3() {
+	pub := make([]byte, 33)
+	pub[0], pub[32] = 2, vU8("pubKeyId")
+	in := TxIns{{PreviousOutPoint: OutPoint{TxHash: vHash32("prev"), Index: vU16("prevIndex")}, PubKey: pub}}
+	var out TxOuts
+	if vBool("hasOutput") {
+		out = TxOuts{{Denomination: vU8("den") % 15, Address: vBytes("addr", 20), Lock: vByteBig("lock")}}
+	}
+	sigBytes := make([]byte, 64)
+	sigBytes[31], sigBytes[63] = 1, 1
+	sig, serr := schnorr.ParseSignature(sigBytes)
+	if serr != nil {
+		return
+	}
+	q := &QiTx{ChainID: vTinyBig("chainId"), TxIn: in, TxOut: out, Data: vBytes("data", 1), Signature: sig}
+	if vBool("hasParentHash") {
+		h := vHash32("parentHash")
+		q.ParentHash = &h
+	}
+	if vBool("hasMixHash") {
+		h := vHash32("mixHash")
+		q.MixHash = &h
+	}
+	if vBool("hasWorkNonce") {
+		n := EncodeNonce(vU64("workNonce"))
+		q.WorkNonce = &n
+	}
+	tx := NewTx(q)
+	p, err := tx.ProtoEncode()
+	vReach("encoded")
+	vAssert("encode/ok", err == nil)
+	if err != nil {
+		return
+	}
+	got := new(Transaction)
+	derr := got.ProtoDecode(p, vLocT)
+	vAssert("roundtrip/decode-accepts-own-encoding", derr == nil)
+	if derr != nil {
+		return
+	}
+	vReach("decoded")
+	vAssert("roundtrip/parent-hash", (got.ParentHash() == nil) == (q.ParentHash == nil) && (q.ParentHash == nil || *got.ParentHash() == *q.ParentHash))
+	vAssert("roundtrip/mix-hash", (got.MixHash() == nil) == (q.MixHash == nil) && (q.MixHash == nil || *got.MixHash() == *q.MixHash))
+	vAssert("roundtrip/work-nonce", (got.WorkNonce() == nil) == (q.WorkNonce == nil) && (q.WorkNonce == nil || *got.WorkNonce() == *q.WorkNonce))
+	vAssert("roundtrip/inputs-outputs-data", len(got.TxIn()) == 1 && len(got.TxIn()[0].PubKey) == 65 && string(got.TxIn()[0].PubKey[1:33]) == string(pub[1:33]) && got.TxIn()[0].PubKey[64] == pub[0] && got.TxIn()[0].PreviousOutPoint == in[0].PreviousOutPoint &&
+		len(got.TxOut()) == len(out) && string(got.Data()) == string(q.Data) && got.ChainId().Cmp(q.ChainID) == 0)
+	p2, err2 := got.ProtoEncode()
+	vAssert("roundtrip/re-encoding-equals-encoding", err2 == nil && vSameValue(p, p2))
+	vAssert("roundtrip/signing-data-preserved", vSameValue(tx.ProtoEncodeTxSigningData(), got.ProtoEncodeTxSigningData()))
+}
+
+// H-C14-c: a transaction does not alias the buffers it was built from, and a copy does not alias its
+// source. NewTx(inner) of an external and of a Quai transaction with arbitrary value, gas price and
+// data: overwriting the caller's data buffer and updating the caller's big integers in place
+// afterwards leaves every accessor of the transaction unchanged; NewTx(tx.Inner()) followed by
+// SetValue on the copy (what the prime chain does when it reprices a conversion ETX) leaves the
+// original's value unchanged.
+func VerifH_C14_c() {
+	to := common.BytesToAddress(append([]byte{0x00, 0x00}, make([]byte, 18)...), vLocT)
+	v0, g0, d0 := vU64("value"), vU64("gasPrice"), vU8("dataByte")
+	value, price := new(big.Int).SetUint64(v0), new(big.Int).SetUint64(g0)
+	data := []byte{d0, 7}
+	var tx *Transaction
+	external := vBool("external")
+	if external {
+		vFact("type", "external")
+		tx = NewTx(&ExternalTx{Value: value, To: &to, Sender: to, Data: data, Gas: 21000, EtxType: ConversionType})
+	} else {
+		vFact("type", "quai")
+		tx = NewTx(&QuaiTx{ChainID: big.NewInt(9000), Nonce: 1, GasPrice: price, Gas: 21000, To: &to, Value: value, Data: data, V: new(big.Int), R: new(big.Int), S: new(big.Int)})
+	}
+	// the caller reuses its buffers
+	data[0] ^= 0xff
+	data[1] = 9
+	value.Add(value, big.NewInt(1))
+	price.Add(price, big.NewInt(1))
+	vReach("source-mutated")
+	vAssert("newtx/value-not-aliased", tx.Value().IsUint64() && tx.Value().Uint64() == v0)
+	vAssert("newtx/data-not-aliased", len(tx.Data()) == 2 && tx.Data()[0] == d0 && tx.Data()[1] == 7)
+	if !external {
+		vAssert("newtx/gas-price-not-aliased", tx.GasPrice().IsUint64() && tx.GasPrice().Uint64() == g0)
+	}
+	// repricing a copy
+	cpy := NewTx(tx.Inner())
+	if external {
+		cpy.SetValue(new(big.Int).SetUint64(vU64("repriced")))
+	} else {
+		cv := cpy.Value()
+		cv.Add(cv, big.NewInt(3))
+	}
+	vAssert("copy/repricing-leaves-original", tx.Value().IsUint64() && tx.Value().Uint64() == v0)
+	cd := cpy.Data()
+	if len(cd) > 0 {
+		cd[0] ^= 0x55
+	}
+	vAssert("copy/data-not-aliased", tx.Data()[0] == d0)
 }
